@@ -79,6 +79,18 @@ def main():
             core.broken("MONITOR UNSOUND: the monitors fired on the textbook-correct channel: %s\n%s" % (
                 r["failure_class_counts"], json.dumps(r["failures"][:1], indent=1)[:3000]))
     chk.cov["null_hypothesis_runs_silent"] = ref_runs
+    # systematic leg on the textbook channel (same monitors, every schedule within the bound)
+    sys_n = 1200 if thorough else 128
+    sys_args = ["-sys", "3" if thorough else "2", "-spur", "0", "-maxruns", "60000" if thorough else "8000"]
+    reps = sched.fanout(refbin, sys_n // 4, 16, os.path.join(chk.work.dir, "ref-sys-out"), extra_args=sys_args, start=chk.seed * 10000019)
+    for r in reps:
+        if "_crash" in r:
+            core.broken("null-hypothesis systematic run crashed: %s\n%s" % (r["_crash"], r["_out"]))
+        ref_runs += r["runs"]
+        if r["failure_class_counts"] or r.get("sys_diverged_runs"):
+            core.broken("MONITOR UNSOUND: the monitors fired on the textbook-correct channel (systematic leg, diverged=%s): %s\n%s" % (
+                r.get("sys_diverged_runs"), r["failure_class_counts"], json.dumps(r["failures"][:1], indent=1)[:3000]))
+    chk.cov["null_hypothesis_runs_silent"] = ref_runs
 
     # ---- the real z_chan.go
     rc, log, binary, moddir = prepare(chk, "real")
@@ -99,6 +111,22 @@ def main():
 
     total = 20000000 if thorough else 320000
     reps = sched.fanout(binary, total, 16, os.path.join(chk.work.dir, "real-out"), start=chk.seed * 10000019, timeout=7200)
+    # systematic leg: for each small workload EVERY schedule with at most `bound` pre-emptions (and `spur` spurious wake-ups)
+    sreps = sched.fanout(binary, sys_n, 16, os.path.join(chk.work.dir, "real-sys-out"), extra_args=sys_args, start=chk.seed * 10000019, timeout=7200)
+    sysagg = {"sys_workloads": 0, "sys_workloads_enumerated_completely": 0, "sys_workloads_truncated": 0, "sys_diverged_runs": 0, "runs": 0}
+    for r in sreps:
+        if "_crash" not in r:
+            for k in sysagg:
+                sysagg[k] += r.get(k, 0)
+            sysagg["sys_max_schedules_of_one_workload"] = max(sysagg.get("sys_max_schedules_of_one_workload", 0), r.get("sys_max_schedules_of_one_workload", 0))
+    chk.cov["systematic_leg"] = dict(sysagg, preemption_bound=int(sys_args[1]), spurious_bound=int(sys_args[3]),
+                                     subspace="every schedule (decision at each lock/unlock/wait/signal/broadcast, Signal victim included) with at most the "
+                                              "stated number of pre-emptions and spurious wake-ups, for each of the small workloads (2-3 threads x 1-3 ops, 1-2 channels); "
+                                              "every schedule with <= 1 pre-emption is always completed first; workloads whose schedule count exceeds the per-workload cap are counted as truncated, not as enumerated",
+                                     exhaustive=(sysagg["sys_workloads_truncated"] == 0 and sysagg["sys_diverged_runs"] == 0))
+    if sysagg["sys_diverged_runs"]:
+        core.broken("systematic leg: %d runs did not follow their decision prefix (harness non-determinism)" % sysagg["sys_diverged_runs"])
+    reps = reps + sreps
     agg = {"runs": 0, "distinct_schedules": 0, "distinct_workloads": 0, "events": 0, "scheduler_steps": 0,
            "quiescent_deadlocks_allowed_by_model": 0, "step_limit_inconclusive": 0, "porcupine_histories": 0,
            "porcupine_operations": 0, "porcupine_timeouts": 0, "address_order_unreachable": 0}
